@@ -51,7 +51,8 @@ Definition c06_prop (k : c06_case) : bool :=
               eqb_list (ids (rev (cs_stack c')))
                        (ids (filter (fun b => (x_start k <=? bnum b) && (bnum b <? delivered_end)) (x_canon k)))
               && Nat.eqb (cs_nf c') (length (cs_stack c'))
-            else (x_err k =? 3) || (x_err k =? 2)
+            (* the documented limitation: a target cursor on a forked block cannot be resolved from files *)
+            else ((x_err k =? 3) || (x_err k =? 2)) && negb (memN (ri (cu_blk c)) canon_ids)
         end
       else if x_err k =? 2 then
         (* the cursor-resolution error: nothing delivered, and a needed forked block is indeed missing
